@@ -19,6 +19,7 @@ from .astq import walk, const_value
 from .norm import Renderer
 
 MAX_PATHS = 512
+ENUMS = {}        # enum name -> {value: 'Enum::enumerator'}; filled by engine.Ctx so that case labels render like == tests
 
 
 class Unsupported(Exception):
@@ -99,6 +100,21 @@ class Summary:
     def effect_sequences(self, select=None):
         """[(condition, [effect tuples in order])] per path"""
         return [(p.cond, [e[:-1] for e in p.effects if not select or select(e[:-1])], p) for p in self.paths]
+
+    def final_values(self, select=None):
+        """{lvalue: {rendered final value: condition}} over the paths that write the lvalue with plain / compound assignments
+           (the value it holds when the function returns, as an expression of the entry state)"""
+        out = {}
+        for p in self.paths:
+            if p.end == 'abort':
+                continue
+            for lv, val in p.wmap.items():
+                if select and not select(lv):
+                    continue
+                d = out.setdefault(lv, {})
+                k = self.R.r(val)
+                d[k] = boolform.any_of(d.get(k, boolform.F_), p.cond)
+        return out
 
     def abort_condition(self):
         out = boolform.F_
@@ -412,7 +428,9 @@ class Summarizer:
         if op == '=':
             p.wmap[lv] = rhs
         else:
-            p.wmap.pop(lv, None)
+            # x op= v : the new value is (x op v) of the value x had (remembered or as read)
+            old = p.wmap.get(lv, lvs)
+            p.wmap[lv] = {'k': 'bin', 'op': op[:-1], 'lhs': self._value(old) if lv in p.wmap else old, 'rhs': rhs, 't': st.get('t')}
         return p
 
     def sub_lvalue(self, t, p):
@@ -451,7 +469,15 @@ class Summarizer:
         sel_r = self.R.r(sel)
 
         def eq(v):
-            a, b = sorted([sel_r, self.R.r(v)])
+            vt = self.R.r(v)
+            inner = _strip(v)
+            if isinstance(inner, dict) and inner.get('k') == 'ref' and inner.get('dk') == 'enum':
+                vt = inner.get('qn', inner.get('name'))      # as an == test against the enumerator renders
+            cvv = const_value(v) if isinstance(v, dict) and vt == self.R.r(v) else None
+            tn = str((v or {}).get('t', '')) if isinstance(v, dict) else ''
+            if cvv is not None and tn in ENUMS and cvv in ENUMS[tn]:
+                vt = ENUMS[tn][cvv]
+            a, b = sorted([sel_r, vt])
             return boolform.A('(== %s %s)' % (a, b))
         out = []
         has_default = any(kind == 'default' for labels, _ in flat for kind, v in labels)
